@@ -392,8 +392,17 @@ class StmtMixin:
             cases = None
             if name in spec.split:
                 from .contracts import to_index
-                var, term = spec.split[name]
-                cases = [(var, to_index(self.eval_tv(term, ctx)))]
+                sp = spec.split[name]
+                var, term = sp[0], sp[1]
+                other = None
+                if len(sp) > 2:
+                    # the remaining case as a clause over the bound variable (a placeholder constant stands for it)
+                    from .contracts import Translator, TV
+                    ph = z3.BitVec('%s!case' % var, 64)
+                    tr = Translator(ctx, self.reg.defs)
+                    tr.bound.append({var: TV(ph, False)})
+                    other = (ph, tr.clause(sp[2]))
+                cases = [(var, to_index(self.eval_tv(term, ctx)), other)]
             self.oblige('loop_inv_preserved', '%s.%s' % (tag, name), self.inv_clause(text, ctx), 'preserved: ' + text, n, cases=cases)
         if dec0 is not None:
             dec1 = self.eval_tv(spec.decreases, ctx)
